@@ -7,6 +7,12 @@ the evaluation is symbolic and total over the declared input ranges."""
 from . import ir as IR
 from .report import AnalysisBroken
 
+class Inexact(Exception):
+    """the code computes with floating point: a double has 53 bits of mantissa, so it cannot be exact over the 64-bit range of nsync_time"""
+    def __init__(self, inst):
+        Exception.__init__(self, 'floating-point %s at %s' % (inst.op, inst.where()))
+        self.inst = inst
+
 class Aff:
     __slots__ = ('c', 'k')
     def __init__(self, c=None, k=0):
@@ -269,6 +275,8 @@ class Evaluator:
             elif op in ('and', 'or', 'xor') and i.ty == 'i1':
                 a, b = self._val(regs, i.ops[0]), self._val(regs, i.ops[1])
                 regs[i.id] = ('bool', op, a, b)
+            elif op in ('sitofp', 'uitofp', 'fptosi', 'fptoui', 'fadd', 'fsub', 'fmul', 'fdiv', 'frem', 'fcmp', 'fpext', 'fptrunc', 'fneg'):
+                raise Inexact(i)
             else:
                 raise AnalysisBroken('affine: unsupported instruction %s at %s' % (op, i.where()))
     def _const_load(self, i):
